@@ -1,6 +1,6 @@
 (* Property C01 — AOEF save/load round trip is lossless for every collection type. *)
 From Coq Require Import ZArith List Bool Arith.
-From SE Require Import Aoef.Model Aoef.Schema Aoef.Typing Aoef.Pinned Aoef.Final.
+From SE Require Import Aoef.Model Aoef.Schema Aoef.Typing Aoef.Pinned Aoef.Final Aoef.Dispatch Aoef.Codecs.
 Import ListNotations.
 
 (* for EVERY schema that passes the boolean check, every collection adapter and every well-formed object graph
@@ -42,6 +42,46 @@ Theorem C01_roundtrip_current : forall rt U, In rt roots -> wfb current rt U = t
   load_root current rt (save_root current rt U) = Some U.
 Proof. exact roundtrip_current. Qed.
 Print Assumptions C01_roundtrip_current.
+
+(* which adapter writes / re-reads a collection.  For EVERY table order and subclass relation: if every class an object
+   is an instance of (other than its own) comes later in the table, isinstance-dispatch picks the object's own class *)
+Theorem C01_dispatch_own_class : forall parent fuel order o,
+  specific_first parent fuel order o = true -> save_dispatch parent fuel order o = Some o.
+Proof. exact dispatch_own_class. Qed.
+Print Assumptions C01_dispatch_own_class.
+
+(* ... and the ADAPTERS table as it stands in the source (extracted on every run) has that property for all eight types *)
+Theorem C01_dispatch_current : forall rt, In rt roots ->
+  save_dispatch collection_parent 3 adapters_order (rcls rt) = Some (rcls rt).
+Proof. exact dispatch_current_own. Qed.
+Print Assumptions C01_dispatch_current.
+
+Theorem C01_load_dispatch_current : forall rt, In rt roots -> load_dispatch adapters_order (rcls rt) = Some (rcls rt).
+Proof. exact load_dispatch_current. Qed.
+Print Assumptions C01_load_dispatch_current.
+
+Theorem C01_dispatch_base_first_refuted :
+  save_dispatch collection_parent 3 [cRecordingSet; cDataset] cDataset = Some cRecordingSet.
+Proof. exact dispatch_base_first_refuted. Qed.
+Print Assumptions C01_dispatch_base_first_refuted.
+
+(* the two scalar codecs that are not the identity.  A feature list goes through a dict keyed by label and comes back
+   unchanged (order included) exactly under the quantifier's side condition "labels distinct within the list" *)
+Theorem C01_feature_codec : forall l, NoDup (map fst l) -> feat_cycle l = l.
+Proof. exact feat_roundtrip. Qed.
+Print Assumptions C01_feature_codec.
+
+Theorem C01_feature_codec_needs_distinct_labels : exists l, feat_cycle l <> l.
+Proof. exact feat_duplicate_refuted. Qed.
+Print Assumptions C01_feature_codec_needs_distinct_labels.
+
+Theorem C01_feature_cycle_idempotent : forall l, feat_cycle (feat_cycle l) = feat_cycle l.
+Proof. exact feat_cycle_idempotent. Qed.
+Print Assumptions C01_feature_cycle_idempotent.
+
+Theorem C01_time_expansion_codec : forall one x, te_dec one (te_enc one x) = x.
+Proof. exact te_roundtrip. Qed.
+Print Assumptions C01_time_expansion_codec.
 
 (* the check discriminates: the three rows as the pinned tree had them fail it, with a lost object as witness *)
 Theorem C01_pinned_license_refuted :
